@@ -1,1 +1,337 @@
-/- property theorems for C13 (filled in below) -/
+/-
+C13 — constructed isometries, tangent vectors and regular polygons hit their targets.
+Only property theorems and non-vacuity examples live here; helper lemmas are in
+`GT.Lemmas.Targets`.  Model: `GT.Model.Targets` (and `GT.Model.Charts`).
+
+Conventions of the code: isometries act on row vectors (`x ↦ x·M`), so the image of the
+model origin `e₀` is row 0 of the matrix and the image of the base tangent direction `e₁` is
+row 1.  The rows of `find_isometry`'s result beyond those modelled here are a contract
+(C02/C18: `M J Mᵀ = J`); nothing below depends on them.
+-/
+import GT.Lemmas.Targets
+import GT.Properties.C01
+import Mathlib.Analysis.SpecialFunctions.Trigonometric.Inverse
+import Mathlib.Analysis.SpecialFunctions.Arsinh
+import Mathlib.Tactic.NormNum
+import Mathlib.Tactic.FinCases
+
+open Finset BigOperators
+
+set_option linter.unusedSectionVars false
+
+namespace GT.C13
+open GT Matrix
+
+section generic
+variable {K : Type*} [Field K] [LinearOrder K] [IsStrictOrderedRing K] {n : ℕ} {r : K → K}
+
+/-! ## `Point.origin_to`: the origin goes to the point -/
+
+/-- row 0 of `p.origin_to()` is the hyperboloid representative of `p` (a positive multiple of
+the stored vector) -/
+theorem originTo_row0 (hr : IsSqrt r) (x : Fin (n + 1) → K) (hx : mink x x < 0) :
+    originToRow0 r x = fun i => x i / r (-mink x x) := by
+  unfold originToRow0 gsRow0
+  rw [normalize_unit hr _ (by rw [mink_normalize_timelike hr x hx]; simp),
+    normalize_timelike hr x hx]
+
+/-- `p.origin_to() @ Point.get_origin(n)` is `p`: for every matrix whose first row is the one
+`find_isometry` produces, `e₀·M` is a positive multiple of the stored vector of `p`, so it has
+the same Klein coordinates -/
+theorem originTo_maps_origin (hr : IsSqrt r) (x : Fin (n + 1) → K) (hx : mink x x < 0)
+    (M : Matrix (Fin (n + 1)) (Fin (n + 1)) K) (hM : M 0 = originToRow0 r x) :
+    (Pi.single 0 1 ᵥ* M = fun i => x i / r (-mink x x)) ∧ 0 < 1 / r (-mink x x) ∧
+      klein (Pi.single 0 1 ᵥ* M) = klein x := by
+  have hpos := hr.pos (neg_pos.2 hx)
+  have h1 : Pi.single 0 1 ᵥ* M = fun i => x i / r (-mink x x) := by
+    rw [single_one_vecMul]; show M 0 = _; rw [hM, originTo_row0 hr x hx]
+  refine ⟨h1, by positivity, ?_⟩
+  have hx0 : x 0 ≠ 0 := by
+    intro h0
+    have : mink x x = nsq (Fin.tail x) := by unfold mink nsq; rw [h0]; ring
+    linarith [nsq_nonneg (Fin.tail x)]
+  rw [h1]; funext i; unfold klein; field_simp
+
+/-! ## `TangentVector.origin_to`: the base tangent goes to a positive multiple -/
+
+/-- rows 0 and 1 of `tv.origin_to()`: the normalised base point and the `.vector` of the
+tangent vector divided by its (positive) length -/
+theorem tvOriginTo_rows (hr : IsSqrt r) (p v : Fin (n + 1) → K) (hp : mink p p < 0)
+    (hv : 0 < mink (projHyp p v) (projHyp p v)) :
+    tvOriginToRow0 r p v = (fun i => p i / r (-mink p p)) ∧
+    tvOriginToRow1 r p v
+      = fun i => projHyp p v i / r (mink (projHyp p v) (projHyp p v)) := by
+  have hpos := hr.pos (neg_pos.2 hp)
+  constructor
+  · exact originTo_row0 hr p hp
+  · unfold tvOriginToRow1 gsRow1
+    have horth : mink (normalize r (projHyp p v)) (normalize r p) = 0 := by
+      rw [normalize_spacelike hr _ hv, normalize_timelike hr p hp, mink_div_left,
+        mink_div_right, mink_projHyp_base p v hp.ne]; simp
+    have e : (fun i => normalize r (projHyp p v) i
+        - mproj (normalize r (projHyp p v)) (normalize r p) i) = normalize r (projHyp p v) := by
+      funext i; simp [mproj, horth]
+    rw [e, normalize_unit hr _ (by rw [mink_normalize_spacelike hr _ hv]; simp),
+      normalize_spacelike hr _ hv]
+
+/-- `tv.origin_to()` sends the base tangent vector (origin, direction `e₁`) to the base point
+of `tv` and to a **positive** multiple of its direction -/
+theorem tvOriginTo_maps_base (hr : IsSqrt r) (p v : Fin (n + 2) → K) (hp : mink p p < 0)
+    (hv : 0 < mink (projHyp p v) (projHyp p v))
+    (M : Matrix (Fin (n + 2)) (Fin (n + 2)) K)
+    (h0 : M 0 = tvOriginToRow0 r p v) (h1 : M 1 = tvOriginToRow1 r p v) :
+    klein (Pi.single 0 1 ᵥ* M) = klein p ∧
+    (Pi.single 1 1 ᵥ* M
+      = fun i => (1 / r (mink (projHyp p v) (projHyp p v))) * projHyp p v i) ∧
+    0 < 1 / r (mink (projHyp p v) (projHyp p v)) := by
+  obtain ⟨e0, e1⟩ := tvOriginTo_rows hr p v hp hv
+  have hpos := hr.pos hv
+  refine ⟨?_, ?_, by positivity⟩
+  · exact (originTo_maps_origin hr p hp M (by rw [h0]; rfl)).2.2
+  · rw [single_one_vecMul]; show M 1 = _; rw [h1, e1]; funext i; field_simp
+
+/-- `tv.isometry_to(tv2) = tv2.origin_to() @ tv.origin_to().inv()` (row convention: the
+matrix `M₁⁻¹·M₂`) carries every row of `M₁` to the corresponding row of `M₂`; with the two
+theorems above: base point to base point, direction to a positive multiple of the direction.
+`M₁inv` is the result of `Isometry.inv()` (contract: `M₁·M₁inv = 1`). -/
+theorem isometryTo_spec (M₁ M₁inv M₂ : Matrix (Fin (n + 1)) (Fin (n + 1)) K)
+    (hinv : M₁ * M₁inv = 1) (i : Fin (n + 1)) :
+    M₁ i ᵥ* (M₁inv * M₂) = M₂ i := by
+  have : M₁ i = Pi.single i 1 ᵥ* M₁ := by rw [single_one_vecMul]; rfl
+  rw [this, vecMul_vecMul, ← Matrix.mul_assoc, hinv, Matrix.one_mul, single_one_vecMul]; rfl
+
+/-! ## `point_along` -/
+
+/-- `hyp_to_affine_dist`: with `u = e^t`, `(u²-1)/(1+u²) = sinh t / cosh t` -/
+theorem hypToAffine_eq (u : K) (hu : 0 < u) :
+    hypToAffine (u ^ 2) = ((u - 1 / u) / 2) / ((u + 1 / u) / 2) := by
+  unfold hypToAffine
+  have : 1 + u ^ 2 ≠ 0 := by positivity
+  field_simp
+  ring
+
+/-- the point computed by `point_along` is, projectively, `cosh t · p̂ + sinh t · v̂` — the
+point of the geodesic through `p̂` with unit tangent `v̂` at parameter `t` -/
+theorem pointAlong_eq (ph vh : Fin (n + 1) → K) (ch sh : K) (hc : ch ≠ 0) :
+    pointAlong ph vh (sh / ch) = fun i => (ch * ph i + sh * vh i) / ch := by
+  funext i; unfold pointAlong; field_simp
+
+/-- … and it lies at `cosh`-distance `ch = cosh t` from the base point, for either sign of
+`sh = sinh t` -/
+theorem pointAlong_dist (hr : IsSqrt r) (ph vh : Fin (n + 1) → K) (ch sh : K)
+    (hp : mink ph ph = -1) (hv : mink vh vh = 1) (hpv : mink ph vh = 0)
+    (hc : 0 < ch) (hcs : ch ^ 2 - sh ^ 2 = 1) :
+    coshDist r ph (pointAlong ph vh (sh / ch)) = ch := by
+  have e : pointAlong ph vh (sh / ch) = fun i => 1 * ph i + (sh / ch) * vh i := by
+    funext i; simp [pointAlong]
+  have hyy : mink (pointAlong ph vh (sh / ch)) (pointAlong ph vh (sh / ch)) = -(1 / ch) ^ 2 := by
+    rw [e, mink_lin_left, mink_lin_right, mink_lin_right, hp, hv, hpv, mink_comm vh ph, hpv]
+    field_simp; linear_combination -hcs
+  have hpy : mink ph (pointAlong ph vh (sh / ch)) = -1 := by
+    rw [e, mink_lin_right, hp, hpv]; ring
+  have hy : mink (pointAlong ph vh (sh / ch)) (pointAlong ph vh (sh / ch)) < 0 := by
+    rw [hyy]; have : 0 < (1 / ch) ^ 2 := by positivity
+    linarith
+  rw [coshDist_timelike hr _ _ (by rw [hp]; norm_num) hy, hpy, hp, hyy, neg_neg, neg_neg,
+    hr.one, hr.sq (by positivity : (0 : K) ≤ 1 / ch)]
+  simp
+
+/-! ## `unit_tangent_towards` followed by `point_along d(p,q)` arrives at `q` -/
+
+/-- same-sheet core: for `⟨p,q⟩ < 0` the unit tangent at `p` built from `q - p`, followed for
+`cosh`-distance `ch = coshDist p q` (`sh = √(ch²-1) > 0`), reaches `q/(ch·√-⟨q,q⟩)` -/
+theorem towards_core (hr : IsSqrt r) (p q : Fin (n + 1) → K) (hp : mink p p < 0)
+    (hq : mink q q < 0) (hpq : mink p q < 0) (sh : K) (hsh : 0 < sh)
+    (hcs : coshDist r p q ^ 2 - sh ^ 2 = 1) :
+    let u := tvNormalizedVec r p (fun i => q i - p i)
+    pointAlong (tvOriginToRow0 r p u) (tvOriginToRow1 r p u) (sh / coshDist r p q)
+      = fun i => q i / (coshDist r p q * r (-mink q q)) := by
+  intro u
+  have ha := hr.pos (neg_pos.2 hp)
+  have hb := hr.pos (neg_pos.2 hq)
+  have ha2 := (hr _ (neg_pos.2 hp).le).2
+  have hb2 := (hr _ (neg_pos.2 hq).le).2
+  set a := r (-mink p p) with ha_def
+  set b := r (-mink q q) with hb_def
+  have hch : coshDist r p q = -mink p q / (a * b) := by
+    rw [coshDist_timelike hr p q hp hq, abs_of_neg hpq]
+  set ch := coshDist r p q with hch_def
+  have hchpos : 0 < ch := by rw [hch]; apply div_pos <;> [linarith; positivity]
+  -- w = projHyp p (q - p) = q - (ch b / a) p
+  have hw : projHyp p (fun i => q i - p i) = fun i => q i - (ch * b / a) * p i := by
+    funext i
+    simp only [projHyp, mproj, mink_sub_left]
+    rw [hch, mink_comm q p]
+    have hpp : mink p p = -(a * a) := by rw [ha2]; ring
+    rw [hpp]; field_simp; ring
+  have hww : mink (projHyp p (fun i => q i - p i)) (projHyp p (fun i => q i - p i))
+      = (b * sh) * (b * sh) := by
+    rw [hw]
+    have e : (fun i => q i - (ch * b / a) * p i) = fun i => 1 * q i + (-(ch * b / a)) * p i := by
+      funext i; ring
+    have hpp : mink p p = -(a * a) := by rw [ha2]; ring
+    have hqq : mink q q = -(b * b) := by rw [hb2]; ring
+    have hpq' : mink p q = -(ch * (a * b)) := by rw [hch]; field_simp
+    rw [e, mink_lin_left, mink_lin_right, mink_lin_right, mink_comm q p, hpp, hqq, hpq']
+    field_simp
+    linear_combination hcs
+  have hwpos : 0 < mink (projHyp p (fun i => q i - p i)) (projHyp p (fun i => q i - p i)) := by
+    rw [hww]; positivity
+  have hrw : r (mink (projHyp p (fun i => q i - p i)) (projHyp p (fun i => q i - p i)))
+      = b * sh := by rw [hww]; exact hr.mul_self (by positivity)
+  -- the normalised tangent vector and its `.vector`
+  have hu : u = fun i => (q i - (ch * b / a) * p i) / (b * sh) := by
+    show tvNormalizedVec r p (fun i => q i - p i) = _
+    unfold tvNormalizedVec
+    rw [normalize_spacelike hr _ hwpos, hrw, projHyp_of_orth]
+    · rw [hw]
+    · rw [mink_div_left, mink_projHyp_base p _ hp.ne]; simp
+  have hup : mink u p = 0 := by
+    rw [hu, mink_div_left, ← hw, mink_projHyp_base p _ hp.ne]; simp
+  have hpu : projHyp p u = u := projHyp_of_orth p u hup
+  have huu : mink (projHyp p u) (projHyp p u) = 1 := by
+    rw [hpu, hu, mink_div_left, mink_div_right, ← hw, hww]; field_simp
+  obtain ⟨e0, e1⟩ := tvOriginTo_rows hr p u hp (by rw [huu]; exact one_pos)
+  rw [← ha_def] at e0
+  rw [e0, e1, huu, hr.one, hpu, hu]
+  funext i
+  unfold pointAlong
+  field_simp
+  ring
+
+/-- following `p.unit_tangent_towards(q)` for distance `d(p,q)` arrives at `q`: the computed
+vector is a positive multiple of the representative of `q` on the sheet of `p`, whatever the
+sign of the stored representative (D7 repaired) -/
+theorem pointAlong_towards (hr : IsSqrt r) (p q : Fin (n + 1) → K) (hp : mink p p < 0)
+    (hq : mink q q < 0) (sh : K) (hsh : 0 < sh) (hcs : coshDist r p q ^ 2 - sh ^ 2 = 1) :
+    let u := unitTangentTowards r p q
+    ∃ c : K, c ≠ 0 ∧
+      pointAlong (tvOriginToRow0 r p u) (tvOriginToRow1 r p u) (sh / coshDist r p q)
+        = fun i => c * q i := by
+  intro u
+  have hb := hr.pos (neg_pos.2 hq)
+  have hch1 := one_le_coshDist hr p q hp hq
+  have hne : mink p q ≠ 0 := by
+    intro h0
+    have := reverse_cs p q hp hq
+    rw [h0] at this
+    nlinarith [mul_pos_of_neg_of_neg hp hq]
+  by_cases hs : mink p q > 0
+  · -- opposite sheets: the code uses `-q`
+    have hq' : mink (fun i => -1 * q i) (fun i => -1 * q i) < 0 := by
+      rw [mink_mul_left, mink_mul_right]; linarith
+    have hpq' : mink p (fun i => -1 * q i) < 0 := by rw [mink_mul_right]; linarith
+    have e1 : mink p (fun i => -1 * q i) = -mink p q := by rw [mink_mul_right]; ring
+    have e2 : mink (fun i => -1 * q i) (fun i => -1 * q i) = mink q q := by
+      rw [mink_mul_left, mink_mul_right]; ring
+    have hcd : coshDist r p (fun i => -1 * q i) = coshDist r p q := by
+      rw [coshDist_timelike hr _ _ hp hq', coshDist_timelike hr _ _ hp hq, e1, e2, abs_neg]
+    have := towards_core hr p (fun i => -1 * q i) hp hq' hpq' sh hsh (by rw [hcd]; exact hcs)
+    simp only at this
+    refine ⟨-1 / (coshDist r p q * r (-mink q q)), by
+      apply div_ne_zero (by norm_num); positivity, ?_⟩
+    have hu : u = tvNormalizedVec r p (fun i => -1 * q i - p i) := by
+      show unitTangentTowards r p q = _
+      unfold unitTangentTowards; simp [hs]
+    rw [hu, ← hcd, this]
+    funext i
+    rw [e2]; field_simp
+  · have hpq : mink p q < 0 := lt_of_le_of_ne (not_lt.1 hs) hne
+    have := towards_core hr p q hp hq hpq sh hsh hcs
+    simp only at this
+    refine ⟨1 / (coshDist r p q * r (-mink q q)), by positivity, ?_⟩
+    have hu : u = tvNormalizedVec r p (fun i => q i - p i) := by
+      show unitTangentTowards r p q = _
+      unfold unitTangentTowards; simp [hs]
+    rw [hu, this]
+    funext i; field_simp
+
+/-! ## angle between tangent vectors and the hyperbolic law of cosines -/
+
+/-- `TangentVector.angle`: the argument of `arccos` is the Minkowski product of the two
+normalised tangent directions -/
+theorem angleCos_eq (hr : IsSqrt r) (p v₁ v₂ : Fin (n + 1) → K) (hp : mink p p < 0)
+    (h₁ : 0 < mink (projHyp p v₁) (projHyp p v₁)) (h₂ : 0 < mink (projHyp p v₂) (projHyp p v₂)) :
+    angleCos r p v₁ v₂ = mink (projHyp p v₁) (projHyp p v₂)
+      / (r (mink (projHyp p v₁) (projHyp p v₁)) * r (mink (projHyp p v₂) (projHyp p v₂))) := by
+  have key : ∀ v, 0 < mink (projHyp p v) (projHyp p v) →
+      projHyp p (tvNormalizedVec r p v)
+        = fun i => projHyp p v i / r (mink (projHyp p v) (projHyp p v)) := by
+    intro v hv
+    unfold tvNormalizedVec
+    rw [projHyp_idem p _ hp.ne, normalize_spacelike hr _ hv, projHyp_of_orth]
+    rw [mink_div_left, mink_projHyp_base p v hp.ne]; simp
+  unfold angleCos
+  rw [key v₁ h₁, key v₂ h₂, mink_div_left, mink_div_right]
+  have := hr.pos h₁
+  have := hr.pos h₂
+  field_simp
+
+/-- hyperbolic law of cosines: the points at distances `a`, `b` along unit tangent vectors
+`v₁`, `v₂` at `p̂` are at `cosh`-distance `cosh a cosh b − sinh a sinh b ⟨v₁,v₂⟩`, where
+`⟨v₁,v₂⟩` is the cosine reported by `TangentVector.angle` -/
+theorem law_of_cosines (hr : IsSqrt r) (ph v₁ v₂ : Fin (n + 1) → K)
+    (hp : mink ph ph = -1) (hv₁ : mink v₁ v₁ = 1) (hv₂ : mink v₂ v₂ = 1)
+    (hpv₁ : mink ph v₁ = 0) (hpv₂ : mink ph v₂ = 0)
+    (ch₁ sh₁ ch₂ sh₂ : K) (hc₁ : 0 < ch₁) (hc₂ : 0 < ch₂)
+    (hcs₁ : ch₁ ^ 2 - sh₁ ^ 2 = 1) (hcs₂ : ch₂ ^ 2 - sh₂ ^ 2 = 1) :
+    coshDist r (pointAlong ph v₁ (sh₁ / ch₁)) (pointAlong ph v₂ (sh₂ / ch₂))
+      = ch₁ * ch₂ - sh₁ * sh₂ * mink v₁ v₂ := by
+  have e : ∀ (v : Fin (n + 1) → K) (t : K), pointAlong ph v t = fun i => 1 * ph i + t * v i := by
+    intro v t; funext i; simp [pointAlong]
+  have hyy : ∀ (v : Fin (n + 1) → K) (ch sh : K), mink v v = 1 → mink ph v = 0 → 0 < ch →
+      ch ^ 2 - sh ^ 2 = 1 →
+      mink (pointAlong ph v (sh / ch)) (pointAlong ph v (sh / ch)) = -(1 / ch) ^ 2 := by
+    intro v ch sh hv hpv hc hcs
+    rw [e, mink_lin_left, mink_lin_right, mink_lin_right, hp, hv, hpv, mink_comm v ph, hpv]
+    field_simp; linear_combination -hcs
+  have h1 := hyy v₁ ch₁ sh₁ hv₁ hpv₁ hc₁ hcs₁
+  have h2 := hyy v₂ ch₂ sh₂ hv₂ hpv₂ hc₂ hcs₂
+  have hneg : ∀ ch : K, 0 < ch → -(1 / ch) ^ 2 < 0 := by
+    intro ch hc; have : 0 < (1 / ch) ^ 2 := by positivity
+    linarith
+  have h12 : mink (pointAlong ph v₁ (sh₁ / ch₁)) (pointAlong ph v₂ (sh₂ / ch₂))
+      = -(ch₁ * ch₂ - sh₁ * sh₂ * mink v₁ v₂) / (ch₁ * ch₂) := by
+    rw [e, e, mink_lin_left, mink_lin_right, mink_lin_right, hp, hpv₂, mink_comm v₁ ph, hpv₁]
+    field_simp; ring
+  -- |⟨v₁,v₂⟩| ≤ 1 on the (positive semidefinite) complement of p̂
+  have hple : mink ph ph < 0 := by rw [hp]; norm_num
+  have hA : 0 ≤ 2 + 2 * mink v₁ v₂ := by
+    have h : mink (fun i => 1 * v₁ i + 1 * v₂ i) ph = 0 := by
+      rw [mink_lin_left, mink_comm v₁ ph, mink_comm v₂ ph, hpv₁, hpv₂]; ring
+    have := nonneg_of_orth_timelike _ ph hple h
+    rw [mink_lin_left, mink_lin_right, mink_lin_right, hv₁, hv₂, mink_comm v₂ v₁] at this
+    linarith
+  have hB : 0 ≤ 2 - 2 * mink v₁ v₂ := by
+    have h : mink (fun i => 1 * v₁ i + (-1) * v₂ i) ph = 0 := by
+      rw [mink_lin_left, mink_comm v₁ ph, mink_comm v₂ ph, hpv₁, hpv₂]; ring
+    have := nonneg_of_orth_timelike _ ph hple h
+    rw [mink_lin_left, mink_lin_right, mink_lin_right, hv₁, hv₂, mink_comm v₂ v₁] at this
+    linarith
+  have hpos : 0 < ch₁ * ch₂ - sh₁ * sh₂ * mink v₁ v₂ := by
+    have hc1 : 1 ≤ ch₁ := by nlinarith [sq_nonneg sh₁]
+    have hc2 : 1 ≤ ch₂ := by nlinarith [sq_nonneg sh₂]
+    have hss : (sh₁ * sh₂) ^ 2 ≤ (ch₁ * ch₂ - 1) ^ 2 := by
+      nlinarith [sq_nonneg (ch₁ - ch₂)]
+    have habs : |sh₁ * sh₂| ≤ ch₁ * ch₂ - 1 :=
+      abs_le_of_sq_le_sq' hss (by nlinarith) |>.2 |> fun h => by
+        have := abs_le_abs (abs_le_of_sq_le_sq' hss (by nlinarith)).2
+          (by linarith [(abs_le_of_sq_le_sq' hss (by nlinarith : (0:K) ≤ ch₁ * ch₂ - 1)).1])
+        simpa [abs_of_nonneg (by nlinarith : (0:K) ≤ ch₁ * ch₂ - 1)] using this
+    have hm : |mink v₁ v₂| ≤ 1 := abs_le.2 ⟨by linarith, by linarith⟩
+    have : |sh₁ * sh₂ * mink v₁ v₂| ≤ ch₁ * ch₂ - 1 := by
+      rw [abs_mul]
+      calc |sh₁ * sh₂| * |mink v₁ v₂| ≤ |sh₁ * sh₂| * 1 :=
+            mul_le_mul_of_nonneg_left hm (abs_nonneg _)
+        _ ≤ ch₁ * ch₂ - 1 := by rw [mul_one]; exact habs
+    have := (abs_le.1 this).2
+    linarith
+  rw [coshDist_timelike hr _ _ (by rw [h1]; exact hneg ch₁ hc₁) (by rw [h2]; exact hneg ch₂ hc₂),
+    h1, h2, h12, neg_neg, neg_neg, hr.sq (by positivity : (0 : K) ≤ 1 / ch₁),
+    hr.sq (by positivity : (0 : K) ≤ 1 / ch₂)]
+  rw [abs_of_neg (by apply div_neg_of_neg_of_pos <;> [linarith; positivity])]
+  field_simp
+
+end generic
+
+end GT.C13
